@@ -312,6 +312,36 @@ class SpinDetected(BaseException):
     pass
 
 
+def check_handshake(c: Counter, tier: str):
+    """The client's side of the admission handshake, run for real: Client._connect over a scripted connection that answers with the
+    lines the server builds (seated reply, team line).  Every team name of the admission alphabet must get through, for every seat."""
+    pool = names(2 if tier == 'thorough' else 1) + ['Team North-South', "O'Neil (2) #1", 'a  b', 'Meadowlark++ (v2)', 'Q-Plus [beta]?', 'x|y', 'a\\b', '^$', '*', 'E/W : x', '.+', '(']
+    for team in pool:
+        for k, s in enumerate(SEATS):
+            other = pool[(pool.index(team) + 7) % len(pool)]
+            ns, ew = (team, other) if s in 'NS' else (other, team)
+            pl = adapt.PL[s]
+            lines = [f'{pl.formal_name} {team} seated', f'Teams : N/S : "{ns}" E/W : "{ew}"']
+            fc = FakeConn([(x + '\r\n').encode('utf-8') for x in lines])
+            fc.connect = lambda *a: None
+            cl = Client(player=pl, team_name=team, bidding_system=None, playing_system=None, ip_address='h', port=1)
+            cl._socket = fc
+            MessageInterface.__init__(cl, connection_socket=fc)
+            c.inc('evals')
+            c.inc('handshakes')
+            rp = {'kind': 'handshake', 'team': team, 'seat': s, 'other': other}
+            try:
+                cl._connect()
+            except BaseException as e:  # noqa
+                c.violate(f'handshake:{_ncls(team)}:{"meta" if any(ch in team for ch in "+*?[]()|^$.\\") else "plain"}',
+                          f'the bundled client with team name {team!r} in seat {s} does not get through its own admission handshake (server lines {lines}): {type(e).__name__}: {e}', rp)
+                continue
+            sent = bytes(fc.sent).decode('utf-8').split('\r\n')
+            got = _try(PlayerThread.parse_connection_info, sent[0])
+            if got != (team, pl, 18) or cl.opponent_team_name != other:
+                c.violate(f'handshake:meaning:{_ncls(team)}', f'client {s} of team {team!r}: the server reads its request {sent[0]!r} as {got}; the client takes the opponents to be {cl.opponent_team_name!r} (they are {other!r})', rp)
+
+
 class FakeConn:
     """Byte-level connection: the stream is delivered in the given chunks (recv never crosses a chunk boundary); after the
     last chunk the peer has closed: recv returns b'' - and after SPIN_LIMIT such reads the receiver is declared spinning."""
@@ -338,8 +368,17 @@ class FakeConn:
         del self.chunks[0][:n]
         return out
 
-    def sendall(self, data):
-        self.sent.extend(data)
+    def send(self, data, *a):
+        # a socket under back-pressure takes only part of what it is offered
+        k = min(len(data), 5)
+        self.sent.extend(data[:k])
+        return k
+
+    def sendall(self, data, *a):
+        data = bytes(data)
+        while data:
+            k = self.send(data)
+            data = data[k:]
 
     def close(self):
         pass
@@ -490,6 +529,7 @@ def run(tier, seed, workers):
     check_headers(c, list(range(1, 121)) + [10 ** k for k in range(3, 10)])
     check_names(c, tier)
     check_relay(c)
+    check_handshake(c, tier)
     ranks = [0, 7, 8, 12] if tier == 'quick' else [0, 7, 8, 9, 12]      # 2 9 T (J) A
     units = [(ranks, m) for m in range(1 << len(ranks))]
     cs = pmap(hands_unit, units, workers)
@@ -507,7 +547,7 @@ def run(tier, seed, workers):
         'states': n, 'transitions': n + tot.get('streams'), 'traces_validated_against_impl': n,
         'evaluations': n, 'distinct_nontrivial': tot.distinct('cls') + tot.distinct('hcls'),
         'call_messages': tot.get('calls'), 'card_messages': tot.get('cards'), 'board_headers': tot.get('headers'),
-        'auctions_relayed_by_the_real_bidding_phase': tot.get('relayed_auctions'), 'team_lines': tot.get('teams'), 'connection_lines': tot.get('connects'), 'hands': tot.get('hands'),
+        'auctions_relayed_by_the_real_bidding_phase': tot.get('relayed_auctions'), 'client_handshakes': tot.get('handshakes'), 'team_lines': tot.get('teams'), 'connection_lines': tot.get('connects'), 'hands': tot.get('hands'),
         'byte_streams_chunked': tot.get('streams'), 'end_of_stream_points': tot.get('eof_points'),
         'end_verdicts_seen': sorted(tot.sets.get('end', [])),
         'rule': 'builder/parser pairs over complete finite domains: 38 calls x 4 seats x 3 letter cases x 5 alert forms through the '
@@ -515,7 +555,7 @@ def run(tier, seed, workers):
                 'notations x 3 cases; board numbers 1..120 and 10^k x 4 dealers x 4 vulnerabilities; 5 auctions x 4 dealers x 5 alert forms x 3 cases relayed by the real Server.bidding_phase (queues pre-filled) and read by parse_bid, alerts never relayed to the partner; lead prompts; team names = every '
                 f'string of length <= 2 over {ALPHABET!r} plus a tricky list, in team lines and connection lines; hands = every hand '
                 f'of <= 13 cards of the reduced deck (ranks {ranks} x 4 suits) and all 8192 holdings per suit, as own hand and as '
-                'dummy\'s.  Framing: message sequences of length 1..3 over {empty, a, e-acute} with EVERY chunking of the byte '
+                'dummy\'s.  The client\'s own admission handshake (Client._connect over a scripted connection) for every team name x 4 seats.  The fake connection takes at most 5 bytes per send() (short writes).  Framing: message sequences of length 1..3 over {empty, a, e-acute} with EVERY chunking of the byte '
                 'stream, 40-byte lines with every subset (<= 4) of cuts adjacent to message boundaries, and end of stream at '
                 'EVERY byte position (whole and byte-by-byte delivery); the receiver must deliver the complete messages and then '
                 'raise; a spin is >= 6 empty reads after end-of-stream.',
@@ -557,6 +597,10 @@ def replay(d):
     if k == 'lead':
         got = _try(Client.parse_leader_message, d['msg'], adapt.PL[d['dummy']])
         return isinstance(got, str), f'-> {got}'
+    if k == 'handshake':
+        check_handshake(c, 'thorough')
+        v = [x for x in c.violations if x.replay.get('team') == d['team']]
+        return bool(v), '; '.join(x.message for x in v[:2]) or 'handshake completes'
     if k == 'relay':
         check_relay(c)
         v = [x for x in c.violations if x.replay.get('auction') == d['auction'] and x.replay.get('dealer') == d['dealer'] and x.replay.get('alert') == d['alert'] and x.replay.get('case') == d['case']]
